@@ -1,6 +1,6 @@
 #!/bin/bash
 # par.sh <seeds|refactors|mutants> : run the long self-test loops sharded over 5 scratch worktrees of /repo
-# (/tmp/tw1..5, created and removed by the caller). Output: one line per item on stdout.
+# (/tmp/tw1..N, N = $PAR_N, default 5; created and removed by the caller). Output: one line per item on stdout.
 cd /verif
 kind=$1
 case $kind in
@@ -9,8 +9,9 @@ case $kind in
   mutants) items=$(ls selftest/mut/*.diff);;
 esac
 i=0
-for it in $items; do echo "$((i % 5 + 1)) $it"; i=$((i+1)); done > /tmp/par.$kind.list
-for w in 1 2 3 4 5; do
+N=${PAR_N:-5}
+for it in $items; do echo "$((i % N + 1)) $it"; i=$((i+1)); done > /tmp/par.$kind.list
+for w in $(seq 1 $N); do
   (
   export TRY_REPO=/tmp/tw$w
   grep "^$w " /tmp/par.$kind.list | while read _ it; do
